@@ -105,6 +105,13 @@ def strategy_(draw, tier):
     for d in g["nodes"].values():
         d["seq"] = d["seq"].replace("N", "A")
     rc.soft_mask(draw, g)
+    if draw(st.integers(0, 7)) == 0:
+        # realign takes the path as a walk whatever the segments are called: a name may contain ':' and '-'
+        # (only here: for view and index such a path is ambiguous with a stable interval by the GAF syntax itself)
+        ids_ = sorted(g["nodes"])
+        new_ = "ctg7:0-%d" % len(ids_)
+        if new_ not in g["nodes"]:
+            g = gen_graph.rename_nodes(g, {draw(st.sampled_from(ids_)): new_})
     lm = models.LinkModel(g["links"])
     closed = gen_gaf.revisit_walks(g, lm) if not long_class else []
     lines, fasta = [], []
@@ -335,6 +342,10 @@ def enumerations(tier, shard, nshards):
         fasta3 = ">t1\nAAA%sTTT\n>t2\nAAA%sTTT\n>over\nAAA%sTTTTTTTTT\n" % (big[1:11], big[1:11], big[1:60001] + "A")
         for batch in (3, 1):
             yield {"gfa": gfa, "gaf": gaf3, "fasta": fasta3, "cores": 1, "batch": batch, "kind": "sim"}
+        # a pass-through record that carries optional fields but no CIGAR: it stays without one
+        gaf4 = ["over\t60010\t3\t60004\t+\t>s1>s2\t60007\t1\t60002\t12\t99\t7\tNM:i:3\tzz:Z:abc",
+                "t1\t60010\t3\t13\t+\t>s1\t60001\t1\t11\t10\t10\t60\tNM:i:0"]
+        yield {"gfa": gfa, "gaf": gaf4, "fasta": fasta3, "cores": 1, "batch": 2, "kind": "sim"}
         # a small real-process case with reverse steps
         yield {"gfa": "S\ta\tACGTTGCA\tLN:i:8\tSN:Z:chr1\tSO:i:0\tSR:i:0\nS\tb\tGGATC\tLN:i:5\tSN:Z:chr1\tSO:i:8\tSR:i:0\nL\ta\t+\tb\t+\t0M\n",
                "gaf": ["r1\t9\t1\t8\t+\t<b<a\t13\t2\t9\t7\t7\t60\tcg:Z:7="], "fasta": ">r1\nTTCCTGCAA\n", "cores": 2, "batch": 1,
@@ -411,6 +422,29 @@ def enumerations(tier, shard, nshards):
 
     yield ("shifted slices of 1-6 bases (optimum without any '=' column, exact cost ties, input already optimal), forward and reverse",
            shifted(), True)
+
+    def flanks():
+        # the read slice lacks the first k or the last k bases of the path slice: the optimal alignment starts / ends with a deletion
+        rnd = random.Random(91)
+        node = "".join(rnd.choice("ACGT") for _ in range(400))
+        gfa = "S\tw1\t%s\tLN:i:400\tSN:Z:chr1\tSO:i:0\tSR:i:0\n" % node
+        gaf, fa = [], []
+        for i, (a, b, k, side) in enumerate([(10, 70, 3, "head"), (100, 190, 9, "tail"), (200, 230, 1, "head"), (250, 330, 12, "tail"),
+                                              (340, 390, 5, "both")]):
+            ref = node[a:b]
+            if side == "head":
+                read, cg = ref[k:], "%dD%d=" % (k, len(ref) - k)
+            elif side == "tail":
+                read, cg = ref[:-k], "%d=%dD" % (len(ref) - k, k)
+            else:
+                read, cg = ref[k:-k], "%dD%d=%dD" % (k, len(ref) - 2 * k, k)
+            nm = "fl%d" % i
+            m_ = len(read)
+            gaf.append("%s\t%d\t2\t%d\t+\t>w1\t400\t%d\t%d\t%d\t%d\t60\tcg:Z:%s" % (nm, m_ + 4, m_ + 2, a, b, m_, len(ref), cg))
+            fa.append(">%s\nGG%sCC\n" % (nm, read))
+        yield {"gfa": gfa, "gaf": gaf, "fasta": "".join(fa), "cores": 1, "batch": 10, "kind": "sim"}
+
+    yield ("read slices that lack the first or last bases of the path slice (alignment begins or ends with a deletion)", flanks(), True)
 
     yield ("reads of 16 000 and 20 000 bases with six indels of 100-200 bp", verylong(), True)
 
